@@ -101,6 +101,9 @@ class Tmatrix(ScatteringTheory):
         else:
             raise TheoryNotCompatibleError(self, scatterer)
 
+        # (as floats: the product of integer radii, e.g. int32 nanometres,
+        # wraps around)
+        rxy, rz = float(rxy), float(rz)
         axi = (3/2)**iscyl*(rz*rxy**2)**(1/3.)
         rat = 1
         lam = med_wavelen
